@@ -23,17 +23,21 @@ pub struct IsoState<S: Scanner> {
     pub m: S,
     pub a: S,
     pub b: S,
+    /// solo scanner of the third channel (only compared in `triple` mode)
+    pub c: S,
     pub now: u64,
 }
 impl<S: Scanner> Clone for IsoState<S> {
     fn clone(&self) -> Self {
-        IsoState { m: self.m, a: self.a, b: self.b, now: self.now }
+        IsoState { m: self.m, a: self.a, b: self.b, c: self.c, now: self.now }
     }
 }
 
 pub struct IsoSys<S: Scanner> {
     pub pid: &'static str,
     pub chans: [u8; 3],
+    /// three simultaneously active channels, each compared with its own solo scanner
+    pub triple: bool,
     pub timeout: u64,
     pub cap: u64,
     pub ctrls: Vec<u8>,
@@ -71,6 +75,7 @@ impl<S: Scanner> IsoSys<S> {
         IsoSys {
             pid: "C15",
             chans: [a, b, third],
+            triple: false,
             timeout,
             cap: crate::iso::cap_for(timeout),
             ctrls,
@@ -94,17 +99,17 @@ pub fn cap_for(timeout: u64) -> u64 {
 impl<S: Scanner> System for IsoSys<S> {
     type State = IsoState<S>;
     type Action = IAct;
-    type Key = (u128, u128, u128);
+    type Key = (u128, u128, u128, u128);
 
     fn pid(&self) -> String {
         self.pid.to_string()
     }
     fn name(&self) -> String {
-        format!("{} isolation product [a={}, b={}, third={}, timeout={}ms, {} controllers, {} system messages]", S::NAME, self.chans[0], self.chans[1], self.chans[2], if self.timeout >= (1 << 40) { "inf".to_string() } else { self.timeout.to_string() }, self.ctrls.len(), self.sys_msgs.len())
+        format!("{} isolation product [a={}, b={}, third={}{}, timeout={}ms, {} controllers, {} system messages]", S::NAME, self.chans[0], self.chans[1], self.chans[2], if self.triple { " (all three compared with solo scanners)" } else { " (multi-channel scanner only)" }, if self.timeout >= (1 << 40) { "inf".to_string() } else { self.timeout.to_string() }, self.ctrls.len(), self.sys_msgs.len())
     }
     fn init(&self) -> IsoState<S> {
         set_clock(0);
-        IsoState { m: S::make(self.timeout), a: S::make(self.timeout), b: S::make(self.timeout), now: 0 }
+        IsoState { m: S::make(self.timeout), a: S::make(self.timeout), b: S::make(self.timeout), c: S::make(self.timeout), now: 0 }
     }
     fn actions(&self, _s: &IsoState<S>, out: &mut Vec<IAct>) {
         for slot in 0..3u8 {
@@ -139,8 +144,12 @@ impl<S: Scanner> System for IsoSys<S> {
                         v.push(self.vio("report-carries-triggering-channel", "feed", || format!("feeding CC #{} ={} on channel {} made the multi-channel scanner report a message for channel {}: {:?}", ctrl, val, c, t[0], t)));
                     }
                 }
-                if *slot < 2 {
-                    let solo = if *slot == 0 { &mut n.a } else { &mut n.b };
+                if *slot < 2 || self.triple {
+                    let solo = match *slot {
+                        0 => &mut n.a,
+                        1 => &mut n.b,
+                        _ => &mut n.c,
+                    };
                     set_clock(s.now);
                     let os = solo.feed_msg(&msg);
                     if os != om {
@@ -165,8 +174,12 @@ impl<S: Scanner> System for IsoSys<S> {
                         v.push(self.vio("report-carries-triggering-channel", "poll", || format!("poll({}) returned a message for channel {}: {:?}", c, t[0], t)));
                     }
                 }
-                if *slot < 2 {
-                    let solo = if *slot == 0 { &mut n.a } else { &mut n.b };
+                if *slot < 2 || self.triple {
+                    let solo = match *slot {
+                        0 => &mut n.a,
+                        1 => &mut n.b,
+                        _ => &mut n.c,
+                    };
                     set_clock(s.now);
                     let os = solo.poll_ch(c);
                     if os != om {
@@ -182,12 +195,13 @@ impl<S: Scanner> System for IsoSys<S> {
                 n.m.reset_all();
                 n.a.reset_all();
                 n.b.reset_all();
+                n.c.reset_all();
             }
         }
         Step { next: Some(n), obs, violations: v }
     }
-    fn key(&self, s: &IsoState<S>) -> (u128, u128, u128) {
-        (debug_fp(&s.m, s.now, self.cap), debug_fp(&s.a, s.now, self.cap), debug_fp(&s.b, s.now, self.cap))
+    fn key(&self, s: &IsoState<S>) -> (u128, u128, u128, u128) {
+        (debug_fp(&s.m, s.now, self.cap), debug_fp(&s.a, s.now, self.cap), debug_fp(&s.b, s.now, self.cap), if self.triple { debug_fp(&s.c, s.now, self.cap) } else { 0 })
     }
     fn n_classes(&self) -> usize {
         7
@@ -246,6 +260,25 @@ pub fn pairs(tier: Tier) -> Vec<(u8, u8)> {
     v
 }
 
+/// Three simultaneously active channels (each compared with a solo scanner): a fault that needs
+/// three particular channels at once - e.g. state shared by index arithmetic over more than two
+/// slots - is invisible to the pair products.
+fn run_triples<S: Scanner>(chk: &Check, tier: Tier, timeout: u64) {
+    let triples: Vec<(u8, u8, u8)> = if tier.thorough() { vec![(0, 1, 2), (0, 8, 15), (5, 10, 15), (7, 8, 9), (3, 6, 12), (13, 14, 15)] } else { vec![(0, 8, 15), (7, 8, 9)] };
+    for (a, b, c) in triples {
+        let mut sys = IsoSys::<S>::new(a, b, timeout, false);
+        sys.chans[2] = c;
+        sys.triple = true;
+        if S::POLLS {
+            // keep the triple product small: number selection, data entry MSB/LSB only
+            sys.ctrls = vec![98, 99, 38, 6];
+            sys.sys_msgs.truncate(2);
+        }
+        let out = xs::explore(&sys, &Limits::default());
+        engine::record(chk, &sys, &out, None);
+    }
+}
+
 fn run_for<S: Scanner>(chk: &Check, tier: Tier, timeouts: &[u64]) {
     for &(a, b) in &pairs(tier) {
         for &t in timeouts {
@@ -257,11 +290,15 @@ fn run_for<S: Scanner>(chk: &Check, tier: Tier, timeouts: &[u64]) {
 }
 
 pub fn run_c15(chk: &Check, tier: Tier) {
-    chk.rule("for each unordered channel pair {a,b} (quick: the 8 pairs {c,c+8} plus 6 adjacent/extreme pairs; thorough: all 120) and each of the three scanners: reachability fixpoint of the triple (M fed everything, A fed only a, B fed only b) under contributing Control Changes with a distinct value per channel, system messages F0-FF whose data bytes look like (N)RPN/14-bit traffic (shown to M only), traffic and polls on a third channel (M only), polls of a and b, 1 ms ticks, reset; on every transition M's report for a channel equals the solo scanner's and carries that channel; system messages report nothing. The product is symmetric in a and b, so unordered pairs cover ordered ones");
+    chk.rule("for each unordered channel pair {a,b} (quick: the 8 pairs {c,c+8} plus 6 adjacent/extreme pairs; thorough: all 120) and each of the three scanners: reachability fixpoint of the triple (M fed everything, A fed only a, B fed only b) under contributing Control Changes with a distinct value per channel, system messages F0-FF whose data bytes look like (N)RPN/14-bit traffic (shown to M only), traffic and polls on a third channel (M only), polls of a and b, 1 ms ticks, reset; on every transition M's report for a channel equals the solo scanner's and carries that channel; system messages report nothing. The product is symmetric in a and b, so unordered pairs cover ordered ones. In addition, for a few channel TRIPLES (quick: (0,8,15) and (7,8,9); thorough: six) the product of M with three solo scanners, all three channels active at once");
     chk.assume("per-channel byte domain of one value (leakage shows as a foreign value); polling scanner with timeout 2 ms (and 0 ms in the thorough tier)");
     run_for::<helgoboss_midi::ControlChange14BitMessageScanner>(chk, tier, &[0]);
     run_for::<helgoboss_midi::ParameterNumberMessageScanner>(chk, tier, &[0]);
     #[cfg(feature = "polling")]
     run_for::<helgoboss_midi::PollingParameterNumberMessageScanner>(chk, tier, if tier.thorough() { &[2, 0] } else { &[2] });
+    run_triples::<helgoboss_midi::ControlChange14BitMessageScanner>(chk, tier, 0);
+    run_triples::<helgoboss_midi::ParameterNumberMessageScanner>(chk, tier, 0);
+    #[cfg(feature = "polling")]
+    run_triples::<helgoboss_midi::PollingParameterNumberMessageScanner>(chk, tier, 2);
     chk.sample(json!({"pair": [5, 13], "interleaving": ["cc ch5 #99 =1", "cc ch13 #99 =2", "cc ch5 #98 =1", "F2 6 38 (system)", "cc ch13 #6 =2", "cc ch5 #6 =1", "tick", "tick", "poll(5) -> NRPN-7bit(ch 5, 129, 1) in both M and the solo scanner"]}));
 }
